@@ -4,14 +4,32 @@ from __future__ import annotations
 
 import json
 
+import examples as ex
 import sepcommon as sc
-from common import Outcome, seed, workdir
+from common import NCPU, SPEC, MachineryError, Outcome, cached, seed, tlc, tlc_ok, tlc_violation, workdir
 
 PID = "C15"
 
 
 def warm():
     sc.warm_all()
+    wd = workdir("c15-warm")
+    ci_mc(wd, "A3")
+    ci_mc(wd, "A4o")
+
+
+def ci_mc(wd, fam: str) -> dict:
+    """Design level: the enumeration as a machine (CIMachine.tla: StartPair / Probe / GiveUp / Finish over the verdict table
+    of Separation.tla), every behaviour ends in exactly the list the property demands."""
+    def go():
+        r = tlc("CIMachine.tla", SPEC / f"CIMachine_MC_{fam}.cfg", workers=NCPU, meta=wd / f"cimc{fam}", xmx="6g")
+        v = tlc_violation(r)
+        if v:
+            raise MachineryError(f"CIMachine design check ({fam}): {v} violated\n" + r["out"][-2500:])
+        tlc_ok(r, f"CIMachine {fam}")
+        return {"module": "CIMachine", "family": fam, "generated": r["generated"], "distinct": r["distinct"],
+                "invariants": ["Sound", "AtMostOne", "Exact", "TwoSided", "Progress"], "action_properties": ["Monotone"]}
+    return cached(f"ci-mc-{fam}", go, module="CIMachine")[0]
 
 
 def run(tier: str) -> int:
@@ -19,6 +37,7 @@ def run(tier: str) -> int:
     wd = workdir(PID)
     fams = ["A3", "A4o", "DAG5o"]
     mcs = [sc.mc(wd, f)[0] for f in fams]
+    cimcs = [ci_mc(wd, "A3"), ci_mc(wd, "A4o")]
     gens = [sc.tables(wd, f)[0] for f in fams]
     recs = [r for g in gens for r in g["recs"]]
     r5 = sc.tables(wd, "RND", rnd_seed=700 + seed(), rndn=5, rndk=(5 if tier == "quick" else 30))[0]
@@ -27,6 +46,10 @@ def run(tier: str) -> int:
     if tier == "thorough":
         extra = sc.tables(wd, "A4")[0]
         recs = gens[0]["recs"] + extra["recs"] + r5["recs"] + gens[2]["recs"] + sc.tables(wd, "B5o")[0]["recs"]
+    exf = ex.sep_tables(wd)   # the repository's example catalogue (5-8 nodes), tables by SepFile.tla
+    recs += exf["recs"]
+    bc5 = sc.tables_extra(wd, "BC5")[0]   # 5-node ADMGs around a chain of three bidirected colliders (SepExtra.tla)
+    recs += bc5["recs"]
     n_orders = 3
     stats, fails = sc.replay(wd, "ci", recs, n_orders)
     seen = set()
@@ -38,11 +61,13 @@ def run(tier: str) -> int:
         seen.add((key, sig))
         out.fail(key, sig, f)
     cov = {
-        "states": sum(m["distinct"] for m in mcs) + sum(g["distinct"] for g in gens) + r5["distinct"] + extra["distinct"],
-        "transitions": sum(m["generated"] for m in mcs) + sum(g["generated"] for g in gens) + r5["generated"] + extra["generated"],
+        "states": sum(m["distinct"] for m in mcs + cimcs) + sum(g["distinct"] for g in gens) + r5["distinct"] + extra["distinct"] + exf["distinct"] + bc5["distinct"],
+        "transitions": sum(m["generated"] for m in mcs + cimcs) + sum(g["generated"] for g in gens) + r5["generated"] + extra["generated"] + exf["generated"] + bc5["generated"],
         "traces_validated_against_impl": stats.get("calls", 0),
         "judgements_checked": stats.get("judgements", 0),
         "graphs": len(recs),
+        "design_mc_enumeration_machine": cimcs,
+        "example_catalogue_graphs": exf["names"],
         "samples": [{"g": recs[5]["g"], "min": recs[5]["min"]}, {"g": recs[-1]["g"], "min": recs[-1]["min"]}],
         "exhaustive": True,
         "size_limits": ["None", 0, 1, 2, 3, "n", "n+1"],
@@ -50,7 +75,7 @@ def run(tier: str) -> int:
         "history_replays": stats.get("grow_steps", 0),
         "distinct_nontrivial": sum(1 for r in recs if r["g"]["b"] and any(m[2] not in (0, 99) for m in r["min"])),
         "rule": "one call = (ADMG, size limit k, retention policy, insertion order); families: all 3-node ADMGs, all topologically "
-                "numbered 4-node ADMGs, all 1024 topologically numbered 5-node DAGs, seeded 5-node ADMGs (thorough: all labelled "
+                "numbered 4-node ADMGs, all 1024 topologically numbered 5-node DAGs, the 744 graphs of family BC5 (5-node ADMGs around a chain of three bidirected colliders), seeded 5-node ADMGs (thorough: all labelled "
                 "4-node ADMGs, 6380 sparse 5-node ADMGs with one bidirected edge); the second insertion order replays SepMachine's "
                 "Grow action on one object (list, add an edge in place, list again); expected: exactly one canonical, "
                 "true, minimum-size judgement for every pair whose minimum separator size (MinSizes in Separation.tla) "
